@@ -105,6 +105,8 @@ class RowMachine:
         ks = (1, 2, 3) if full else (1, 2)
         if not full:
             xs = [x for x in xs if x <= W]
+        if alphabet == "mini":
+            xs = sorted({0, max(W - 1, 0), W})
         ops = []
         for x in xs + [-1]:
             ops.append(("set_value", x, 7))
@@ -439,7 +441,7 @@ class RowMachine:
         return (st.model.canon(), st.exc)
 
     def expandable(self, st):
-        return not st.diverged and st.model.width <= 6
+        return not st.diverged and st.model.width <= 5
 
     def describe(self, st):
         return {"xml": st.row.serialize(), "model": list(st.model.cells)}
